@@ -5,6 +5,7 @@ from .. import hgen
 from ..hbase import STUBS
 from ..hlib import c10 as L
 from .common import BASE_ASSUMPTIONS, ROOT, Cond, Spec
+from ..runner import innermost as U
 
 
 def build(tier):
@@ -31,7 +32,7 @@ def build(tier):
     S = aioftp.Server
     return Spec(
         pid="C10", source=src, conds=conds,
-        functions_encoded=[aioftp.AvailableConnections.acquire, aioftp.AvailableConnections.release, aioftp.AvailableConnections.locked, S.greeting, S.user, S.pass_.__wrapped__,
+        functions_encoded=[aioftp.AvailableConnections.acquire, aioftp.AvailableConnections.release, aioftp.AvailableConnections.locked, S.greeting, S.user, U(S.pass_),
                            aioftp.MemoryUserManager.get_user, aioftp.MemoryUserManager.notify_logout, S.dispatcher],
         bounds={
             "counters": "server-wide limit on/off, maximum m and remaining v with 0 <= v <= m <= 1000; the same per user u1 and u2 - all symbolic integers: the holdings of any number of other sessions are represented by v, v1, v2 (inductive in the other sessions)",
